@@ -182,6 +182,9 @@ func tornOffsets(content []byte, mode string) []int {
 				set[o] = true
 			}
 		}
+		if mode == "few" {
+			content = nil // three offsets only (crash images of a crashed restart)
+		}
 		start := 0
 		for i, c := range content {
 			if c == '\n' {
@@ -363,6 +366,7 @@ type crashNode struct {
 	epochs   map[int]*epochInfo
 	lastEp   int
 	stagedAll []*dkg.DBState // every state SaveCurrent stored
+	expanded  map[string]bool // per op: (fin, g, s) states whose reconciling start-up was already killed step by step
 
 	dd       *core.DrandDaemon
 	bp       *core.BeaconProcess
@@ -754,14 +758,58 @@ func sigOf(r uint64) []byte {
 	return b
 }
 
-// recoverImage runs the real start-up on a materialised crash image and reports what it found.
-func (n *crashNode) recoverImage(c cut, withChain bool) string {
+// recoverImage runs the real start-up on a materialised crash image and reports what it found:
+//   fin, cur   the DKG database records as the crash left them (raw store reads BEFORE start-up),
+//   load       what the real DrandDaemon.LoadBeaconFromStore did with the image,
+//   g, s       the key files as the raw loaders read them once that start-up path has run to its end (a start-up that
+//              writes nothing — the as-is path — leaves them as the crash did),
+//   pre        (only when start-up changed a key file) what the raw loaders read before it ran,
+//   r2         (only when start-up wrote into the groups folder) the start-up path was itself killed at every one of
+//              its own persistence steps — reconstructed from the inotify stream like those of a DKG completion — and
+//              restarted: one item per such second-level crash image "<step>~<fin>~<g>~<s>~<load>[~r3:…]".
+func (n *crashNode) recoverImage(c cut, withChain bool) string { return n.recoverImageAt(c, withChain, 0) }
+
+// how deep crash-during-start-up images are followed: quick 1 (crash inside the first restart), every-offset mode 2
+func (n *crashNode) restartDepth() int {
+	if n.tornMode == "all" {
+		return 2
+	}
+	return 1
+}
+
+func (n *crashNode) rawKeyFiles(dir string) (string, string) {
+	ks := key.NewFileStore(filepath.Join(dir, "multibeacon"), n.beaconID)
+	gl := safely(func() string {
+		g, err := ks.LoadGroup()
+		if err != nil {
+			return fileErr(err)
+		}
+		return n.epochOfGroup(g)
+	})
+	sl := safely(func() string {
+		s, err := ks.LoadShare()
+		if err != nil {
+			return fileErr(err)
+		}
+		return n.epochOfShare(s)
+	})
+	if strings.HasPrefix(gl, "panic:") {
+		gl = "panic"
+	}
+	if strings.HasPrefix(sl, "panic:") {
+		sl = "panic"
+	}
+	return gl, sl
+}
+
+func (n *crashNode) recoverImageAt(c cut, withChain bool, depth int) string {
 	dir, err := os.MkdirTemp(n.root, "img")
 	if err != nil {
 		panic(err)
 	}
 	defer os.RemoveAll(dir)
 	writeImage(dir, n, c)
+	gd := filepath.Join(dir, "multibeacon", n.beaconID, "groups")
 	return safely(func() string {
 		var f []string
 		// raw loaders first (labels), on the image
@@ -784,29 +832,9 @@ func (n *crashNode) recoverImage(c cut, withChain bool) string {
 				st.Close()
 			}
 		}
-		ks := key.NewFileStore(filepath.Join(dir, "multibeacon"), n.beaconID)
-		gl := safely(func() string {
-			g, err := ks.LoadGroup()
-			if err != nil {
-				return fileErr(err)
-			}
-			return n.epochOfGroup(g)
-		})
-		sl := safely(func() string {
-			s, err := ks.LoadShare()
-			if err != nil {
-				return fileErr(err)
-			}
-			return n.epochOfShare(s)
-		})
-		if strings.HasPrefix(gl, "panic:") {
-			gl = "panic"
-		}
-		if strings.HasPrefix(sl, "panic:") {
-			sl = "panic"
-		}
-		f = append(f, "fin="+fin, "cur="+curS, "g="+gl, "s="+sl)
-		// the real start-up path
+		gl0, sl0 := n.rawKeyFiles(dir)
+		// the real start-up path, its own writes into the groups folder observed
+		var evs []fsEvent
 		load := safely(func() string {
 			dd, _, err := core.VerifNewDaemon(n.ctx, quietLogger(), dir, deafClient{})
 			if err != nil {
@@ -821,7 +849,11 @@ func (n *crashNode) recoverImage(c cut, withChain bool) string {
 					dd.VerifShutdown(n.ctx)
 				}
 			}()
+			w := newWatcher(gd)
+			defer w.close()
+			w.drain()
 			bp, err := dd.LoadBeaconFromStore(n.ctx, n.beaconID, dd.VerifKeyStore(n.beaconID))
+			evs = w.drain()
 			panicked = false
 			if err != nil && bp != nil {
 				// Load succeeded, StartBeacon (createDBStore / NewHandler) failed
@@ -834,12 +866,17 @@ func (n *crashNode) recoverImage(c cut, withChain bool) string {
 			if g == nil {
 				return "fresh"
 			}
-			res := "ok:" + n.epochOfGroup(g) + "/" + n.epochOfShare(s)
+			eg, es := n.epochOfGroup(g), n.epochOfShare(s)
+			res := "ok:" + eg + "/" + es
 			node := g.Find(n.pairs[0].Public)
 			if node == nil || int(node.Index) != idx {
 				res += ",index-mismatch"
 			} else if s != nil && s.Share != nil && s.Share.I != idx {
 				res += ",share-index-differs"
+			}
+			// "the node resumes": the share it signs with lies on the public polynomial of the group it loaded
+			if eg == es && strings.HasPrefix(eg, "E") && (g.PublicKey == nil || s == nil || !g.PublicKey.Equal(s.Public())) {
+				res += ",share-not-on-group-polynomial"
 			}
 			if !running {
 				res += ",not-running"
@@ -853,7 +890,8 @@ func (n *crashNode) recoverImage(c cut, withChain bool) string {
 				load = "panic:other[" + strings.ReplaceAll(load, " ", "_") + "]"
 			}
 		}
-		f = append(f, "load="+load)
+		gl, sl := n.rawKeyFiles(dir)
+		f = append(f, "fin="+fin, "cur="+curS, "g="+gl, "s="+sl, "load="+load)
 		if withChain {
 			ch := "nodb"
 			if c.chain != nil {
@@ -861,8 +899,62 @@ func (n *crashNode) recoverImage(c cut, withChain bool) string {
 			}
 			f = append(f, "chain="+ch)
 		}
+		if gl != gl0 || sl != sl0 {
+			f = append(f, "pre="+gl0+"/"+sl0)
+		}
+		// start-up wrote into the groups folder: kill it at each of its own steps and restart
+		wrote := false
+		for _, e := range evs {
+			if e.mask&(syscall.IN_CREATE|syscall.IN_MODIFY|syscall.IN_DELETE|syscall.IN_MOVED_TO|syscall.IN_ATTRIB) != 0 {
+				wrote = true
+			}
+		}
+		if wrote {
+			after := readDir(gd)
+			mode := "few"
+			if n.tornMode == "all" && depth == 0 {
+				mode = "quick"
+			}
+			cs, tr := cutsFromEvents(c.groups, after, evs, mode)
+			items := []string{"trace:" + strings.Join(tr, ",")}
+			// (not below the torn images of the first level: their key files are those of the step before; in the sampled
+			// modes once per distinct state (completed record, group file, share) of an op's crash images)
+			expand := depth < n.restartDepth() && c.torn == ""
+			if expand && depth == 0 && n.tornMode != "all" {
+				k := fin + "|" + gl0 + "|" + sl0
+				if n.expanded[k] {
+					expand = false
+				}
+				n.expanded[k] = true
+			}
+			if expand {
+				for _, c2 := range cs {
+					c2.dkgDb, c2.chain = c.dkgDb, c.chain
+					if c2.torn != "" && depth > 0 {
+						continue
+					}
+					rec := parseRecFields(n.recoverImageAt(c2, false, depth+1))
+					it := c2.label + "~" + rec["fin"] + "~" + rec["g"] + "~" + rec["s"] + "~" + rec["load"]
+					if r, ok := rec["r2"]; ok {
+						it += "~r3:" + strings.ReplaceAll(strings.ReplaceAll(r, "~", "^"), "+", "&")
+					}
+					items = append(items, it)
+				}
+			}
+			f = append(f, "r2="+strings.Join(items, "+"))
+		}
 		return strings.Join(f, ";")
 	})
+}
+
+func parseRecFields(s string) map[string]string {
+	out := map[string]string{}
+	for _, x := range strings.Split(s, ";") {
+		if i := strings.Index(x, "="); i > 0 {
+			out[x[:i]] = x[i+1:]
+		}
+	}
+	return out
 }
 
 // previousCommitImage returns the image of a bolt file as it was before its most recent commit:
@@ -931,6 +1023,9 @@ func crashEngine(args []string, in *bufio.Scanner, out *bufio.Writer) {
 		if len(f) == 0 {
 			continue
 		}
+		if n != nil {
+			n.expanded = map[string]bool{}
+		}
 		res := safely(func() string {
 			switch f[0] {
 			case "init":
@@ -942,7 +1037,7 @@ func crashEngine(args []string, in *bufio.Scanner, out *bufio.Writer) {
 				per, _ := strconv.Atoi(f[3])
 				seed, _ := strconv.ParseUint(f[4], 10, 64)
 				n = &crashNode{tornMode: tornMode, beaconID: "default", sch: mustScheme(f[1]), period: time.Duration(per) * time.Second,
-					epochs: map[int]*epochInfo{}, ctx: context.Background()}
+					epochs: map[int]*epochInfo{}, ctx: context.Background(), expanded: map[string]bool{}}
 				n.root = tmpDir()
 				n.cfg = filepath.Join(n.root, "live")
 				r := &rng{s: seed}
